@@ -30,6 +30,13 @@ const (
 	Routable Kind = iota // fd00::/9, geo-marked (outside the special /12)
 	Privacy              // fd80::/9
 	Roaming              // fd00::/16 roaming, outside internal
+	ContinentA           // geo-marked, all inside one continent prefix (fd10::/12)
+	ContinentB           // geo-marked, all inside another continent prefix (fd40::/12)
+)
+
+var (
+	continentA = netip.MustParsePrefix("fd10::/12")
+	continentB = netip.MustParsePrefix("fd40::/12")
 )
 
 type cacheFile struct {
@@ -52,6 +59,10 @@ func kindName(k Kind) string {
 		return "routable"
 	case Privacy:
 		return "privacy"
+	case ContinentA:
+		return "continent-a"
+	case ContinentB:
+		return "continent-b"
 	default:
 		return "roaming"
 	}
@@ -63,6 +74,10 @@ func accept(k Kind, ip netip.Addr) bool {
 		return m.GetAddressType(ip) == m.TypeGeoMarked
 	case Privacy:
 		return m.GetAddressType(ip) == m.TypePrivacy
+	case ContinentA:
+		return m.GetAddressType(ip) == m.TypeGeoMarked && continentA.Contains(ip)
+	case ContinentB:
+		return m.GetAddressType(ip) == m.TypeGeoMarked && continentB.Contains(ip)
 	default:
 		return m.GetAddressType(ip) == m.TypeRoaming
 	}
